@@ -37,7 +37,7 @@ func init() {
 		Doc: "no function reachable from a serving root writes routing/option state it did not allocate itself (readers are effect-free)",
 		Run: ruleCOW4})
 	register(&Rule{Name: "COW-5", Floor: 8,
-		Doc: "state.clone/path.clone carry over every field and share with the published snapshot nothing that any writer mutates in place (derived from EFFECTS on every run)",
+		Doc: "state.clone/path.clone carry over every field and share with the published snapshot nothing that any writer mutates in place (derived from EFFECTS on every run); for a non-nil receiver every path to a return of clone reads every field of the receiver",
 		Run: ruleCOW5})
 	register(&Rule{Name: "COW-6", Floor: 2,
 		Doc: "each serve function loads the routing snapshot exactly once and resolves route and handler against that same snapshot",
